@@ -1,7 +1,7 @@
 (* C09 -- the generic stropping theorems instantiated with the configuration regenerated from /repo
    (Generated/Gen_Strop.v) and the Unicode tables of the running interpreter (Generated/Gen_Uni.v).
    The side conditions are recomputed by vm_compute from the regenerated data on every build. *)
-From Verif Require Import StropInst StropThmRe StropThmEnc StropThm StropThmId StropThmPipe StropThmHandler StropThmTotal StropThmCache.
+From Verif Require Import StropInst StropThmRe StropThmEnc StropThm StropThmId StropThmPipe StropThmHandler StropThmTotal StropThmCache StropThmFull.
 Open Scope N_scope.
 
 Lemma chk_sound_c : chk_sound py_uni cfg_c = true.     Proof. vm_compute; reflexivity. Qed.
@@ -24,6 +24,9 @@ Proof. intros H. unfold strop_lang, strop. rewrite H. reflexivity. Qed.
 Lemma chk_id_c : chk_id py_uni cfg_c false = true.     Proof. vm_compute; reflexivity. Qed.
 Lemma chk_id_py : chk_id py_uni cfg_py false = true.   Proof. vm_compute; reflexivity. Qed.
 Lemma chk_id_cpp : chk_id py_uni cfg_cpp true = true.  Proof. vm_compute; reflexivity. Qed.
+Lemma nn_c : rules_nonnull py_uni cfg_c = true.     Proof. vm_compute; reflexivity. Qed.
+Lemma nn_py : rules_nonnull py_uni cfg_py = true.   Proof. vm_compute; reflexivity. Qed.
+Lemma nn_cpp : rules_nonnull py_uni cfg_cpp = true. Proof. vm_compute; reflexivity. Qed.
 
 Definition clean_lang (l : lang) (ty t : str) : bool :=
   valid_ident t && negb (reserved_lang l t) && negb (pattern_lang l ty t).
@@ -38,20 +41,20 @@ Qed.
 Lemma strop_id_c_thm ty t : str_eqb (lower ty) ty_all = false -> clean_lang LC ty t = true -> strop_c ty t = Ok t.
 Proof.
   intros Hty H. apply clean_split in H as (H1 & H2 & H3).
-  apply (strop_id_gen py_uni py_isspace cfg_c false chk_id_c); auto. discriminate.
+  apply (strop_id_gen py_uni py_isspace cfg_c false chk_id_c nn_c); auto. discriminate.
 Qed.
 
 Lemma strop_id_py_thm ty t : str_eqb (lower ty) ty_all = false -> clean_lang LPy ty t = true -> strop_py ty t = Ok t.
 Proof.
   intros Hty H. apply clean_split in H as (H1 & H2 & H3).
-  apply (strop_id_gen py_uni py_isspace cfg_py false chk_id_py); auto. discriminate.
+  apply (strop_id_gen py_uni py_isspace cfg_py false chk_id_py nn_py); auto. discriminate.
 Qed.
 
 Lemma strop_id_cpp_partial_thm ty t :
   str_eqb (lower ty) ty_all = false -> clean_lang LCpp ty t = true -> has_dunder t = false -> strop_cpp ty t = Ok t.
 Proof.
   intros Hty H Hd. apply clean_split in H as (H1 & H2 & H3).
-  apply (strop_id_gen py_uni py_isspace cfg_cpp true chk_id_cpp); auto.
+  apply (strop_id_gen py_uni py_isspace cfg_cpp true chk_id_cpp nn_cpp); auto.
 Qed.
 
 (* clause 3 of the property ("already valid, unreserved identifiers are returned unchanged"), for the DOCUMENTED alphabet:
@@ -132,18 +135,20 @@ Lemma strop_sound_sel k l ty tok t :
 Proof. exact (strop_sound_gen py_uni py_isspace (cfg_sel k l) (chk_sound_sel k l) ty tok t). Qed.
 
 (* ---- the regenerated step list of TokenEncoder.strop ---- *)
-Lemma pipeline_is_model_thm : strop_pipeline = model_pipeline strop_reverifies.
+Lemma pipeline_is_model_thm : strop_pipeline = model_pipeline strop_reverifies strop_full_check.
 Proof. reflexivity. Qed.
 
-Lemma reverify_sel k l : Bool.eqb (sc_reverify (cfg_sel k l)) strop_reverifies = true.
+Lemma reverify_sel k l : Bool.eqb (sc_reverify (cfg_sel k l)) strop_reverifies && Bool.eqb (sc_full_check (cfg_sel k l)) strop_full_check = true.
 Proof.
-  apply (cfg_sel_all (fun c => Bool.eqb (sc_reverify c) strop_reverifies)); [intros []; vm_compute; reflexivity|vm_compute; reflexivity].
+  apply (cfg_sel_all (fun c => Bool.eqb (sc_reverify c) strop_reverifies && Bool.eqb (sc_full_check c) strop_full_check));
+    [intros []; vm_compute; reflexivity|vm_compute; reflexivity].
 Qed.
 
 Lemma strop_is_regenerated_pipeline_thm k l ty s : strop_sel k l ty s = strop_sel_pipeline k l ty s.
 Proof.
   unfold strop_sel, strop_sel_pipeline. rewrite strop_is_pipeline, pipeline_is_model_thm.
-  rewrite (Bool.eqb_prop _ _ (reverify_sel k l)). reflexivity.
+  pose proof (reverify_sel k l) as H. apply andb_prop in H as [H1 H2].
+  rewrite (Bool.eqb_prop _ _ H1), (Bool.eqb_prop _ _ H2). reflexivity.
 Qed.
 
 (* ---- the translated failure handlers ---- *)
@@ -160,33 +165,79 @@ Qed.
 (* ---- totality on the shipped configurations (side conditions recomputed from the regenerated data) ---- *)
 Ltac total_side := first [vm_compute; reflexivity | intros _; split; vm_compute; reflexivity | intros H; vm_compute in H; discriminate H].
 
-Lemma strop_total_c_thm ty s : s <> [] -> str_eqb (lower ty) ty_all = false -> exists t, strop_c ty s = Ok t.
-Proof. apply (strop_total_gen py_uni py_isspace cfg_c false); total_side. Qed.
+(* Totality is proved for the tree WITHOUT the whole-token loop of _reverified (no_full cfg) and transferred with strop_no_full:
+   the loop is one more filter, so what remains to show is that it accepts every token the other checks accept.  For c and py
+   that is proved (a valid identifier passes: full_ok_valid).  For cpp it is proved for tokens without `__`; for tokens that
+   contain `__` it is the NAMED PREMISE below (what is missing is the lemma "the cpp encoder's output never ends in `__`", i.e.
+   stability of the rule _{2,}$ under re.sub) -- supported by the exhaustive model-vs-implementation sweep, not by proof.
+   In a tree without the loop (strop_full_check = false) the premise is True. *)
+Definition cpp_whole_token_premise : Prop :=
+  if strop_full_check
+  then forall ty s t, s <> [] -> strop py_uni py_isspace (no_full cfg_cpp) ty s = Ok t -> has_dunder t = true ->
+                      full_ok py_uni cfg_cpp (lower ty) t = true
+  else True.
 
-Lemma strop_total_cpp_thm ty s : s <> [] -> str_eqb (lower ty) ty_all = false -> exists t, strop_cpp ty s = Ok t.
-Proof. apply (strop_total_gen py_uni py_isspace cfg_cpp true); total_side. Qed.
+Lemma cpp_premise_trivial_without_loop : strop_full_check = false -> cpp_whole_token_premise.
+Proof. unfold cpp_whole_token_premise. intros ->. exact I. Qed.
+
+Lemma nofull_sound l : chk_sound py_uni (no_full (cfg_of l)) = true.
+Proof. destruct l; vm_compute; reflexivity. Qed.
+
+Lemma nofull_total_c ty s : s <> [] -> str_eqb (lower ty) ty_all = false -> exists t, strop py_uni py_isspace (no_full cfg_c) ty s = Ok t.
+Proof. apply (strop_total_gen py_uni py_isspace (no_full cfg_c) false); total_side. Qed.
+Lemma nofull_total_cpp ty s : s <> [] -> str_eqb (lower ty) ty_all = false -> exists t, strop py_uni py_isspace (no_full cfg_cpp) ty s = Ok t.
+Proof. apply (strop_total_gen py_uni py_isspace (no_full cfg_cpp) true); total_side. Qed.
+Lemma nofull_total_py ty s : s <> [] -> str_eqb (lower ty) ty_all = false -> exists t, strop py_uni py_isspace (no_full cfg_py) ty s = Ok t.
+Proof. apply (strop_total_gen py_uni py_isspace (no_full cfg_py) false); total_side. Qed.
+
+Lemma nofull_valid l ty s t : s <> [] -> strop py_uni py_isspace (no_full (cfg_of l)) ty s = Ok t -> valid_ident t = true.
+Proof. intros Hne H. exact (proj1 (strop_sound_gen py_uni py_isspace (no_full (cfg_of l)) (nofull_sound l) ty s t Hne H)). Qed.
+
+Lemma strop_total_c_thm ty s : s <> [] -> str_eqb (lower ty) ty_all = false -> exists t, strop_c ty s = Ok t.
+Proof.
+  intros Hne Hty. unfold strop_c. rewrite strop_no_full. destruct (nofull_total_c ty s Hne Hty) as (t & E). rewrite E.
+  rewrite (full_ok_valid py_uni cfg_c false chk_id_c nn_c (lower ty) t (nofull_valid LC ty s t Hne E)) by discriminate.
+  rewrite orb_true_r. eexists; reflexivity.
+Qed.
 
 Lemma strop_total_py_thm ty s : s <> [] -> str_eqb (lower ty) ty_all = false -> exists t, strop_py ty s = Ok t.
-Proof. apply (strop_total_gen py_uni py_isspace cfg_py false); total_side. Qed.
+Proof.
+  intros Hne Hty. unfold strop_py. rewrite strop_no_full. destruct (nofull_total_py ty s Hne Hty) as (t & E). rewrite E.
+  rewrite (full_ok_valid py_uni cfg_py false chk_id_py nn_py (lower ty) t (nofull_valid LPy ty s t Hne E)) by discriminate.
+  rewrite orb_true_r. eexists; reflexivity.
+Qed.
 
-Lemma strop_total_lang l ty s : s <> [] -> str_eqb (lower ty) ty_all = false -> exists t, strop_lang l ty s = Ok t.
-Proof. destruct l; [apply strop_total_c_thm|apply strop_total_cpp_thm|apply strop_total_py_thm]. Qed.
+Lemma strop_total_cpp_thm ty s : cpp_whole_token_premise -> s <> [] -> str_eqb (lower ty) ty_all = false -> exists t, strop_cpp ty s = Ok t.
+Proof.
+  intros P Hne Hty. unfold strop_cpp. rewrite strop_no_full. destruct (nofull_total_cpp ty s Hne Hty) as (t & E). rewrite E.
+  assert (F : negb (sc_reverify cfg_cpp) || negb (sc_full_check cfg_cpp) || full_ok py_uni cfg_cpp (lower ty) t = true).
+  { destruct (has_dunder t) eqn:D.
+    - unfold cpp_whole_token_premise in P. destruct strop_full_check eqn:Efc.
+      + rewrite (P ty s t Hne E D). apply orb_true_r.
+      + assert (Hf : sc_full_check cfg_cpp = strop_full_check) by reflexivity. rewrite Hf, Efc. cbn [negb]. rewrite orb_true_r. reflexivity.
+    - rewrite (full_ok_valid py_uni cfg_cpp true chk_id_cpp nn_cpp (lower ty) t (nofull_valid LCpp ty s t Hne E)); [apply orb_true_r|].
+      intros _; exact D. }
+  rewrite F. eexists; reflexivity.
+Qed.
+
+Lemma strop_total_lang l ty s : cpp_whole_token_premise -> s <> [] -> str_eqb (lower ty) ty_all = false -> exists t, strop_lang l ty s = Ok t.
+Proof. intros P. destruct l; [apply strop_total_c_thm|apply strop_total_cpp_thm; exact P|apply strop_total_py_thm]. Qed.
 
 (* every DSDL name ([A-Za-z_][A-Za-z0-9_]*, any length; pydsdl only removes names from this set) gets a token, and the
    token is a valid identifier, not reserved, free of reserved patterns *)
-Lemma strop_dsdl_ident_thm l ty s : valid_ident s = true -> str_eqb (lower ty) ty_all = false ->
+Lemma strop_dsdl_ident_thm l ty s : cpp_whole_token_premise -> valid_ident s = true -> str_eqb (lower ty) ty_all = false ->
   exists t, strop_lang l ty s = Ok t /\ valid_ident t = true /\ reserved_lang l t = false /\ pattern_lang l ty t = false.
 Proof.
-  intros Hv Hty. assert (Hne : s <> []) by (destruct s; [discriminate|discriminate]).
-  destruct (strop_total_lang l ty s Hne Hty) as (t & Ht). exists t; split; [exact Ht|].
+  intros P Hv Hty. assert (Hne : s <> []) by (destruct s; [discriminate|discriminate]).
+  destruct (strop_total_lang l ty s P Hne Hty) as (t & Ht). exists t; split; [exact Ht|].
   exact (strop_sound_lang l ty s t Hne Ht).
 Qed.
 
 (* the exact set of outcomes: a token, or ValueError for the type `all`; RuntimeError never *)
-Lemma strop_outcomes_thm l ty s : s <> [] ->
+Lemma strop_outcomes_thm l ty s : cpp_whole_token_premise -> s <> [] ->
   (str_eqb (lower ty) ty_all = true /\ strop_lang l ty s = ErrValue) \/ (str_eqb (lower ty) ty_all = false /\ exists t, strop_lang l ty s = Ok t).
 Proof.
-  intros Hne. destruct (str_eqb (lower ty) ty_all) eqn:E.
+  intros P Hne. destruct (str_eqb (lower ty) ty_all) eqn:E.
   - left; split; [reflexivity|]. unfold strop_lang, strop. rewrite E. reflexivity.
   - right; split; [reflexivity|]. apply strop_total_lang; assumption.
 Qed.
@@ -242,7 +293,8 @@ Definition cfg_c_suffix (suf : str) : strop_cfg :=
   {| sc_reserved := sc_reserved cfg_c; sc_patterns := sc_patterns cfg_c; sc_rules := sc_rules cfg_c;
      sc_prefix := sc_prefix cfg_c; sc_suffix := suf; sc_enc_prefix := sc_enc_prefix cfg_c;
      sc_ws_char := sc_ws_char cfg_c; sc_collapse := sc_collapse cfg_c;
-     sc_strop_handler := sc_strop_handler cfg_c; sc_enc_handler := sc_enc_handler cfg_c; sc_reverify := sc_reverify cfg_c |}.
+     sc_strop_handler := sc_strop_handler cfg_c; sc_enc_handler := sc_enc_handler cfg_c; sc_reverify := sc_reverify cfg_c;
+     sc_full_check := false |}.
 
 Lemma strop_illegal_affix_refuted_thm :
   (* stropping_suffix "-":  if -> _if-          stropping_suffix "/../x", type path:  if -> _if/../x *)
@@ -252,3 +304,26 @@ Lemma strop_illegal_affix_refuted_thm :
   /\ valid_ident [95; 105; 102; 47; 46; 46; 47; 120] = false
   /\ chk_base py_uni (cfg_c_suffix [45]) = false.
 Proof. vm_compute. repeat split; reflexivity. Qed.
+
+(* ---- the illegal-affix override configurations (Gen_Strop.cfgs_aff) once the whole-token loop is in the tree ---- *)
+Definition aff_ok (c : strop_cfg) : bool := negb strop_full_check || (sc_reverify c && sc_full_check c && chk_full py_uni c).
+
+Lemma cfg_aff_ok k l : aff_ok (cfg_aff k l) = true.
+Proof.
+  assert (Hb : forall l, aff_ok (cfg_of l) = true) by (intros []; vm_compute; reflexivity).
+  assert (Ha : forallb (fun t => aff_ok (pick LC t) && aff_ok (pick LCpp t) && aff_ok (pick LPy t)) cfgs_aff = true)
+    by (vm_compute; reflexivity).
+  unfold cfg_aff. destruct (nth_error cfgs_aff k) as [t|] eqn:E; [|apply Hb]. apply nth_error_In in E.
+  rewrite forallb_forall in Ha. specialize (Ha t E). apply andb_prop in Ha as [Ha H3]. apply andb_prop in Ha as [H1 H2].
+  destruct l; assumption.
+Qed.
+
+Lemma strop_sound_affix_overrides_thm : strop_full_check = true ->
+  forall k l ty s t, s <> [] -> strop_aff k l ty s = Ok t ->
+  valid_ident t = true /\ is_reserved (cfg_aff k l) t = false /\ matches_reserved_pattern py_uni (cfg_aff k l) ty t = false.
+Proof.
+  intros Hf k l ty s t Hne H. pose proof (cfg_aff_ok k l) as Hk. unfold aff_ok in Hk. rewrite Hf in Hk. cbn [negb orb] in Hk.
+  apply andb_prop in Hk as [Hk H3]. apply andb_prop in Hk as [H1 H2].
+  apply andb_prop in H3 as [H3 Hws]. 
+  exact (strop_sound_full_gen py_uni py_isspace (cfg_aff k l) Hws H1 H2 (andb_true_intro (conj H3 Hws)) ty s t Hne H).
+Qed.
